@@ -127,7 +127,7 @@ def _group_members(pgid):
     return out
 
 
-def wait_exited(pid, limit=20.0):
+def wait_exited(pid, limit=120.0):
     """Wait until the daemon main process is a zombie or gone (it is *not* reaped here)."""
     t0 = time.time()
     while time.time() - t0 < limit:
@@ -183,6 +183,9 @@ class RealPair:
         from pkgcore.ebuild import ebd_ipc, eclass_cache, processor
         from pkgcore.test.misc import FakeRepo
 
+        # pkgcore installs a SIGTERM handler that raises SystemExit; in forked pool workers that
+        # turns Pool.terminate() into a hang.  This process never relies on it: default action.
+        signal.signal(signal.SIGTERM, signal.SIG_DFL)
         if not processor._VERIF_TRACE:
             raise RuntimeError("PKGCORE_VERIF=1 must be exported before pkgcore is imported (use ./vcheck)")
         self.processor, self.ebd_mod, self.ebd_ipc = processor, ebd_mod, ebd_ipc
@@ -197,6 +200,12 @@ class RealPair:
 
             def traced(direction, data, _orig=orig):
                 _orig(direction, data)
+                if direction == ">":
+                    # expect(timeout=..) with outstanding async expects never disarms its 10 s
+                    # interval timer (reported separately); a timer still armed when the next
+                    # command is written is such a leftover.  Wall-clock timers are outside the
+                    # untimed model, so the leftover is dropped here.
+                    signal.setitimer(signal.ITIMER_REAL, 0)
                 cur = getattr(processor, "_verif_c35_pid", None)
                 if direction == "<" and cur and data.split(" ", 1)[0].strip() == "SIGTERM":
                     wait_exited(cur)
@@ -254,7 +263,7 @@ class RealPair:
         return 'EAPI=8\nDESCRIPTION="x"\nSLOT=0\ninherit foo\npkg_setup() {\n' + body + "\n}\n"
 
     # -- session --------------------------------------------------------------
-    def run_session(self, reqs, limit=90.0):
+    def run_session(self, reqs, limit=900.0):
         """reqs: list of (name, [daemon events]).  Returns dict(trace=[(dir, text)], outcomes=[...], deadlock=...)."""
         processor = self.processor
         open(self.trace_path, "w").close()
@@ -266,7 +275,11 @@ class RealPair:
         )
         pid = ebp.pid
         processor._verif_c35_pid = pid
-        open(self.trace_path, "w").close()  # the start-up handshake is outside the model
+        # the session starts with the daemon waiting in its main loop (start-up is outside the model)
+        if not self._wait_idle(ebp, pid, limit=300.0):
+            self._cleanup(ebp, pid)
+            raise RuntimeError("daemon did not reach its main loop")
+        open(self.trace_path, "w").close()
         state = {"deadlock": None, "stop": False, "timeout": False}
         main_tid = threading.main_thread().native_id
         rfd, wfd = ebp.ebd_read.fileno(), ebp.ebd_write.fileno()
@@ -331,6 +344,7 @@ class RealPair:
                         continue  # ebuild_src: MetadataException, the processor is released for reuse
                     break
         finally:
+            signal.setitimer(signal.ITIMER_REAL, 0)
             state["stop"] = True
             wd.join()
             processor._verif_c35_pid = None
@@ -349,6 +363,8 @@ class RealPair:
 
     def _cleanup(self, ebp, pid):
         processor = self.processor
+        signal.setitimer(signal.ITIMER_REAL, 0)
+        signal.signal(signal.SIGALRM, signal.SIG_DFL)
         try:
             os.killpg(pid, signal.SIGKILL)
         except OSError:
@@ -366,7 +382,7 @@ class RealPair:
         processor.drop_ebuild_processor(ebp)
         gc.collect()
 
-    def _wait_idle(self, ebp, pid, limit=20.0):
+    def _wait_idle(self, ebp, pid, limit=120.0):
         t0 = time.time()
         rfd, wfd = ebp.ebd_read.fileno(), ebp.ebd_write.fileno()
         ok = 0
@@ -444,7 +460,7 @@ class RealPair:
             env["PKGCORE_EAPI_FUNCS"] = " ".join(self.eapi.bash_funcs)
             processor.expected_ebuild_env(pkg, env)
             if "envfail" in devs:
-                env["VERIF_BREAK"] = "a'\\"  # C31: $'..' quoting leaves the backslash bare -> the env file does not parse
+                env["VERIF-BREAK"] = "x"  # `export VERIF-BREAK=x`: not a valid identifier -> the env file evaluates to non-zero
             op = types.SimpleNamespace(
                 pkg=pkg, observer=None, env=env, ED=env["ED"],
                 domain=types.SimpleNamespace(all_installed_repos=self.FakeRepo(()), root="/"),
@@ -765,7 +781,7 @@ def accepts(observed, defs, nreq):
     trace_h = (
         f"#define OBSN {len(observed)}\nbit odir[{n}];\nmtype otyp[{n}];\n#define OBSINIT " + "; ".join(init or ["skip"]) + "\n"
     )
-    defs2 = [x for x in defs if not x.startswith("NREQ=") and x != "THIRD_CONTROL_ONLY"] + ["OBS", f"NREQ={nreq}"]
+    defs2 = [x for x in defs if not x.startswith("NREQ=") and not x.startswith("FULLREQ=")] + ["OBS", f"NREQ={nreq}"]
     d = ensure_build(defs2, extra_files={"trace.h": trace_h}, tag="obs")
     rc, out = _sh(["./pan", "-E", "-m200000", "-n"], d)
     st = pan_stats(out)
